@@ -15,7 +15,7 @@ import sys
 import numpy as np
 
 from .. import par
-from ..qlib import lib, REPO, units
+from ..qlib import lib, REPO, units, f_layout
 
 MCFG = """CONSTANTS MaxH = %d
  MaxW = %d
@@ -91,7 +91,7 @@ def _replay_state(st):
     cls = st["kind"] + (":kernel<image" if (psf.shape[0] < H and psf.shape[0] > 1) or (psf.shape[1] < W and psf.shape[1] > 1) else "")
     detail = {"X": st["X"], "psf": st["psf"]}
     Qi = quat_image(X)
-    Bq = Q.apply_blur_fft(Qi.copy(), psf.copy())
+    Bq = Q.apply_blur_fft(f_layout(Qi), f_layout(psf))
     n += 1
     for c in range(4):
         exp = WEIGHTS[c] * np.roll(Bexp, c, axis=1)
@@ -112,7 +112,7 @@ def _replay_state(st):
     Bobs = quat_image(Bexp) + quat_image(np.roll(X, 1, axis=0)) * 0.25        # some observed data
     for lam in LAMS:
         n += 1
-        Xr = Q.qslst_restore_fft(Bobs.copy(), psf.copy(), lam)
+        Xr = Q.qslst_restore_fft(f_layout(Bobs), f_layout(psf), lam)
         T = A_exp.T @ A_exp + lam * np.eye(N)
         worst = 0
         for c in range(4):
@@ -120,7 +120,7 @@ def _replay_state(st):
             worst = max(worst, units(float(np.max(np.abs(r))), float(np.max(np.abs(T)) * max(np.max(np.abs(Xr)), 1e-300) + np.max(np.abs(Bobs))), N))
         if worst > 4096:
             fails.append(("qslst_restore_fft", "NormalEquations", cls, dict(detail, lam=lam, units=worst)))
-        Xm = Q.qslst_restore_matrix(Bobs.copy(), A_exp.copy(), lam)
+        Xm = Q.qslst_restore_matrix(f_layout(Bobs), A_exp.copy(), lam)
         d = units(float(np.max(np.abs(Xm - Xr))), float(max(np.max(np.abs(Xm)), 1e-300)) * max(1.0, 1.0 / lam), N)
         if d > 4096:
             fails.append(("qslst_restore_matrix", "MatrixFormEqualsFftForm", cls, dict(detail, lam=lam, units=d)))
@@ -150,7 +150,7 @@ def _b_events(args):
             psf = rng.integers(0, 4, (kH, kW)).astype(float)
             X = rng.integers(-4, 5, (H, W)).astype(float)
             Qi = np.stack([X, 2 * X, -X, np.roll(X, 1, axis=0)], axis=-1)
-            B = Q.apply_blur_fft(Qi.copy(), psf.copy())
+            B = Q.apply_blur_fft(f_layout(Qi), f_layout(psf))
             B0 = B[..., 0]
             integral = bool(np.max(np.abs(B0 - np.rint(B0))) <= 1e-9 * max(1.0, np.max(np.abs(B0))))
             ev.append({"tid": tid, "op": "blur", "psf": psf.astype(int).tolist(), "X": X.astype(int).tolist(),
@@ -171,7 +171,7 @@ def _b_events(args):
             if t % 2 == 0:
                 psf = psf * 2.0 ** int(rng.integers(-12, 13))            # un-normalised kernels of any magnitude
             Xq = rng.standard_normal((H, W, 4)) * 10.0 ** int(rng.integers(-9, 10))
-            B = Q.apply_blur_fft(Xq.copy(), psf.copy())
+            B = Q.apply_blur_fft(f_layout(Xq), f_layout(psf))
             ref = np.stack([oconv(Xq[..., c], psf) for c in range(4)], axis=-1)
             ev.append({"tid": tid, "op": "units", "clause": "BlurIsCentredCircularConvolution",
                        "units": units(float(np.max(np.abs(B - ref))), float(np.max(np.abs(Xq)) * psf.sum()), H * W)})
@@ -179,7 +179,7 @@ def _b_events(args):
             A = omatrix(psf, H, W)
             N = H * W
             noisy = B + 0.01 * float(np.max(np.abs(B)) + 1e-300) * rng.standard_normal(B.shape)
-            Xr = Q.qslst_restore_fft(noisy.copy(), psf.copy(), lam)
+            Xr = Q.qslst_restore_fft(f_layout(noisy), f_layout(psf), lam)
             T = A.T @ A + lam * np.eye(N)
             worst = 0
             for c in range(4):
@@ -192,7 +192,7 @@ def _b_events(args):
             rhs = Xr + 2.0 * Q.qslst_restore_fft(B2.copy(), psf.copy(), lam)
             ev.append({"tid": tid, "op": "units", "clause": "LinearInB",
                        "units": units(float(np.max(np.abs(lhs - rhs))), float(np.max(np.abs(lhs)) + 1e-300) * max(1.0, 1.0 / lam), N)})
-            Xm = Q.qslst_restore_matrix(noisy.copy(), A.copy(), lam)
+            Xm = Q.qslst_restore_matrix(f_layout(noisy), A.copy(), lam)
             ev.append({"tid": tid, "op": "units", "clause": "MatrixFormEqualsFftForm",
                        "units": units(float(np.max(np.abs(Xm - Xr))), float(np.max(np.abs(Xr)) + 1e-300) * max(1.0, 1.0 / lam) * max(1.0, np.max(np.abs(T))), N)})
     return ev
